@@ -128,6 +128,22 @@ func VerifyFunc(w *World, fn *ssa.Function, c *Contract, mode string) *FnResult 
 		o := &Obl{Name: qn + p.name, Kind: p.kind, Expect: p.expect, Src: p.src, Fn: qn, ModelVars: fc.modelVars}
 		o.Script = base + "(assert " + p.goal + ")\n(check-sat)\n"
 		res.Obls = append(res.Obls, o)
+		if rs, ok := restrictGlobal[o.Name]; ok && c != nil {
+			if re, err := ParseExpr(rs); err == nil {
+				entry2 := entry.clone()
+				env := fc.contractEnv(fn, args, nil, &entry2, &entry2)
+				env.pkgPath = c.PkgPath
+				for k, v := range fc.lets {
+					if _, ok := env.vars[k]; !ok {
+						env.vars[k] = v
+					}
+				}
+				rt := fc.evalBool(env, re)
+				ro := &Obl{Name: o.Name + "@restricted", Kind: p.kind, Expect: p.expect, Src: "under restriction: " + rs, Fn: qn}
+				ro.Script = fc.B.Script() + "(assert " + rt + ")\n(assert " + p.goal + ")\n(check-sat)\n"
+				res.Obls = append(res.Obls, ro)
+			}
+		}
 	}
 	if len(fc.unsup) > 0 {
 		// an unsupported construct makes the function undecided: a failing obligation that names it
